@@ -60,4 +60,11 @@ CATALOG = [
     dict(pid="C11", name="exp_matrix_2D e_m sign", edits=[("ekore/anomalous_dimensions/__init__.py", "e_m = -c * (gamma_S - lambda_p * identity)", "e_m = +c * (gamma_S - lambda_p * identity)")], expect="exp_matrix_2D"),
     dict(pid="C11", name="harmless: u_vec product order swapped (sum rule still holds)", harmless=True, edits=[("eko/kernels/singlet.py", "rp += np.ascontiguousarray(r[kk - jj]) @ u[jj]", "rp += u[jj] @ np.ascontiguousarray(r[kk - jj])")]),
     dict(pid="C11", name="harmless: eko_iterate right multiplication (sum rule still holds)", harmless=True, edits=[("eko/kernels/singlet.py", "        ek = np.ascontiguousarray(ad.exp_matrix_2D(ln)[0])\n        e = ek @ e\n        al = ah\n    return e", "        ek = np.ascontiguousarray(ad.exp_matrix_2D(ln)[0])\n        e = e @ ek\n        al = ah\n    return e")]),
+    # ---- C10 -------------------------------------------------------------------------------------------
+    dict(pid="C10", name="singlet shortcut at equal couplings removed", edits=[("eko/kernels/singlet.py", "    if a1 == a0:\n        return np.eye(len(gamma_singlet[0]), dtype=np.complex128)\n", "")], expect="C10.identity"),
+    dict(pid="C10", name="ordered truncated denominator power shifted", edits=[("eko/kernels/non_singlet.py", "den += U[i] * a0**i", "den += U[i] * a0 ** (i + 1)")], expect="ORDERED_TRUNCATED"),
+    dict(pid="C10", name="NS truncated drops -a0 at NLO", edits=[("eko/kernels/non_singlet.py", "fact += U[1] * (a1 - a0)", "fact += U[1] * a1")], expect="TRUNCATED"),
+    dict(pid="C10", name="pure QED factor ignores mu2_to", edits=[("eko/kernels/non_singlet_qed.py", "np.log(mu2_from / mu2_to)", "np.log(mu2_from)")], expect="qed_ns"),
+    dict(pid="C10", name="n3lo_expanded uses a0 twice in j33", edits=[("eko/kernels/non_singlet.py", "j33 = as4_ei.j33_expanded(a1, a0, beta0)\n    return np.exp(", "j33 = as4_ei.j33_expanded(a1, a1 * 0.0, beta0)\n    return np.exp(")], expect="order=4"),
+    dict(pid="C10", name="harmless: ordered truncated accumulates in reverse", harmless=True, edits=[("eko/kernels/non_singlet.py", "    for i in range(order[0]):\n        num += U[i] * a1**i\n        den += U[i] * a0**i", "    for i in reversed(range(order[0])):\n        num += U[i] * a1**i\n        den += U[i] * a0**i")]),
 ]
